@@ -70,6 +70,8 @@ func StdEnv() []EnvVal {
 		{"maxint", system.Integer(math.MaxInt32), "int"},
 		{"multi", system.Collection{system.Integer(1), system.Integer(2), system.Integer(3)}, "multi"},
 		{"multis", system.Collection{system.String("a"), system.String("b")}, "multi"},
+		{"codes", system.Collection{system.String("c"), system.String("a"), system.String("d"), system.String("b"), system.String("a")}, "multi"},
+		{"fcodes", system.Collection{&dtpb.String{Value: "c"}, &dtpb.Code{Value: "a"}, &dtpb.String{Value: "b"}, &dtpb.String{Value: "a"}}, "multi"},
 		{"multib", system.Collection{system.Boolean(true), system.Boolean(false)}, "multi"},
 		{"emptyc", system.Collection{}, "empty"},
 		{"dups", system.Collection{system.Integer(1), system.Integer(1), system.Integer(2)}, "multi"},
@@ -99,6 +101,7 @@ func StdEnv() []EnvVal {
 		{"fqty", &dtpb.Quantity{Value: &dtpb.Decimal{Value: "5.5"}, Code: &dtpb.Code{Value: "mg"}, Unit: &dtpb.String{Value: "mg"}}, "elem-prim"},
 		{"fcode", &dtpb.Code{Value: "final"}, "elem-prim"},
 		{"fenum", &ppb.Patient_GenderCode{Value: cpb.AdministrativeGenderCode_MALE}, "elem-prim"},
+		{"fenumbad", &ppb.Patient_GenderCode{Value: cpb.AdministrativeGenderCode_Value(99)}, "elem-prim"},
 		{"furi", &dtpb.Uri{Value: "http://example.org/x"}, "elem-prim"},
 		{"fb64", &dtpb.Base64Binary{Value: []byte{0, 1, 2, 255}}, "elem-prim"},
 		{"coding", &dtpb.Coding{System: &dtpb.Uri{Value: "http://loinc.org"}, Code: &dtpb.Code{Value: "1234-5"}}, "elem-complex"},
@@ -152,7 +155,7 @@ var (
 		"1" + strings.Repeat("0", 320) + ".0", "-1" + strings.Repeat("0", 320) + ".0", "0." + strings.Repeat("0", 330) + "1"}
 	StrSrcs = []string{"''", "'abc'", "'a'", "'é'", "'h€llo😀'", "'é'", "'a\\'b'", "' 1'", "'1'", "'+1'", "'-1'", "'1.0'", "'1e3'", "'abc1'", "'true'", "'yes'", "'T'",
 		"'2020'", "'2020-01-01'", "'2020-13-01'", "'2020-01-01T10:00:00Z'", "'@2020'", "'T10:00'", "'10:00'", "'24:00'", "'25:00'", "'23:59:59.9996'", "'2020-12-31T23:59:59.9996Z'", "'10:00:00.0004'", "'5 \\'mg\\''", "'5'", "'5 days'", "'1 \\'wk\\''", "'5 mg'", "'(['", "'a.b'", "'\\u123'", "'ab\\u00e'", "'\\u00g'", "'\\u'", "'\\u1'", "'\\x'", "'a\\'", "'\\u12345'", "'5\\t mg'", "'1.5\\r days'", "'5 \\'m g\\''", "'5\\n\\'mg\\''", "'5\\t'", "'\\t5'",
-		"%fstr", "%fstrn", "%fcode", "%fenum", "%furi", "%fb64"}
+		"%fstr", "%fstrn", "%fcode", "%fenum", "%fenumbad", "%furi", "%fb64"}
 	BoolSrcs = []string{"true", "false", "%fbool"}
 	DateSrcs = []string{"%fdbadtz", "@2020", "@2020-02", "@2020-02-29", "@2021-02-28", "@2020-12-31", "@0001-01-01", "@9999-12-31", "@2020-01", "%fdate", "(@9999-12-31 + 1 day)", "(@0001-01-01 - 2 years)"}
 	DTSrcs   = []string{"@2020T", "@2020-02T", "@2020-02-29T", "@2020-02-29T10", "@2020-02-29T10:30", "@2020-02-29T10:30:45", "@2020-02-29T10:30:45.123",
